@@ -40,6 +40,9 @@ type Prog struct {
 	cg       *CallGraph
 	domCache map[string]map[string]bool
 	parents  map[*ast.File]map[ast.Node]ast.Node
+	// helperSite: the single call site of an extracted private helper (same package); the
+	// parent maps continue from the helper's declaration to that call (bridgeHelpers)
+	helperSite map[*ast.FuncDecl]*ast.CallExpr
 	Tests    bool
 	GOARCH   string
 	// RoleNotes: anchors that were not found by name and were resolved by role (roles.go)
@@ -283,7 +286,24 @@ func (p *Prog) Parents(f *ast.File) map[ast.Node]ast.Node {
 	for _, pf := range files {
 		p.parents[pf] = m
 	}
+	p.bridgeHelpers(m)
 	return m
+}
+
+// bridgeHelpers makes the parent of an extracted helper's declaration its single call site, so
+// that a walk over the syntactic ancestors of a node inside the helper continues in the caller.
+func (p *Prog) bridgeHelpers(m map[ast.Node]ast.Node) {
+	for fd, cs := range p.helperSite {
+		if _, ok := m[fd]; ok {
+			m[fd] = cs
+		}
+	}
+}
+
+// funcBoundary: m is a function declaration at which an ancestor walk ends (not a bridged helper).
+func (p *Prog) funcBoundary(m ast.Node) bool {
+	fd, ok := m.(*ast.FuncDecl)
+	return ok && p.helperSite[fd] == nil
 }
 
 func (p *Prog) FileOf(pkg *packages.Package, pos token.Pos) *ast.File {
